@@ -13,23 +13,13 @@ fn stub_format(_a: std::fmt::Arguments<'_>) -> String {
     String::new()
 }
 
-//@ tier: quick
-//@ timeout: 900
-//@ functions: arrow_buffer::Buffer::{claim, into_mutable}, MutableBuffer::{from_bytes, into_buffer, claim}, Bytes::claim, pool::{TrackingMemoryPool, Tracker} (feature `pool`)
-//@ bound: one 16-byte standard allocation claimed by a tracking pool while immutable, then (symbolic choice) converted in place to a MutableBuffer, optionally back to a Buffer, and dropped, or dropped directly: the pool reports the region's capacity while any owner is alive and 0 once the last owner is gone — no reservation is leaked or counted twice; unwind 6
-//@ stub: alloc::fmt::format -> empty String
-#[kani::proof]
-#[kani::unwind(6)]
-#[kani::stub(alloc::fmt::format, stub_format)]
-fn c16_pool_accounting_follows_the_region() {
+fn pool_model(convert: bool, back: bool) {
     let pool = TrackingMemoryPool::default();
     let data: [u8; 16] = kani::any();
     let b = Buffer::from_vec(data.to_vec());
     let cap = b.capacity();
     b.claim(&pool);
     assert!(pool.used() == cap, "a claimed buffer is accounted with its capacity");
-    let convert: bool = kani::any();
-    let back: bool = kani::any();
     if convert {
         match b.into_mutable() {
             Ok(m) => {
@@ -51,6 +41,35 @@ fn c16_pool_accounting_follows_the_region() {
         drop(b);
     }
     assert!(pool.used() == 0, "once the last owner is dropped the pool accounts nothing");
-    kani::cover!(convert && back);
-    kani::cover!(!convert);
+    kani::cover!(cap >= 16);
 }
+
+macro_rules! pool_instance {
+    ($name:ident, $convert:expr, $back:expr) => {
+        #[kani::proof]
+        #[kani::unwind(6)]
+        #[kani::stub(alloc::fmt::format, stub_format)]
+        fn $name() {
+            pool_model($convert, $back);
+        }
+    };
+}
+
+//@ tier: quick
+//@ timeout: 900
+//@ functions: arrow_buffer::Buffer::{claim, into_mutable}, MutableBuffer::from_bytes, Drop for MutableBuffer, Bytes::claim, pool::{TrackingMemoryPool, Tracker} (feature `pool`)
+//@ bound: one 16-byte standard allocation (arbitrary content) claimed by a tracking pool while immutable, converted in place to a MutableBuffer and dropped: the pool reports the region's capacity while an owner is alive and 0 once it is gone — the reservation is neither leaked nor counted twice; unwind 6
+//@ stub: alloc::fmt::format -> empty String
+pool_instance!(c16_pool_accounting_into_mutable_then_drop, true, false);
+//@ tier: quick
+//@ timeout: 900
+//@ functions: arrow_buffer::Buffer::{claim, into_mutable}, MutableBuffer::{from_bytes, into_buffer}, Bytes::claim (feature `pool`)
+//@ bound: as c16_pool_accounting_into_mutable_then_drop, converting back to an immutable Buffer before the drop; unwind 6
+//@ stub: alloc::fmt::format -> empty String
+pool_instance!(c16_pool_accounting_round_trip_then_drop, true, true);
+//@ tier: quick
+//@ timeout: 900
+//@ functions: arrow_buffer::Buffer::claim, Drop for Bytes (feature `pool`)
+//@ bound: as c16_pool_accounting_into_mutable_then_drop, dropping the claimed Buffer directly; unwind 6
+//@ stub: alloc::fmt::format -> empty String
+pool_instance!(c16_pool_accounting_claim_then_drop, false, false);
